@@ -8,8 +8,10 @@ def run(ctx):
     ctx.clause = ("no change_kind-taking suppression predicate can answer true without having tested the kind of "
                   "change, and each application loop passes the kind and stores into the set that belong to the "
                   "container it iterates")
-    ctx.rules = ["R-CHGKIND/a", "R-CHGKIND/b"]
+    ctx.rules = ["R-CHGKIND/a", "R-CHGKIND/b", "R-BINGATE"]
     P = ctx.program(UNITS)
     sa.check_chgkind_a(ctx, P)
     sa.check_chgkind_b(ctx, P)
+    from rules import bingate_rule
+    bingate_rule.check(ctx, P)
     ctx.assume("name / regex matching of the suppression against the interface is runtime behaviour")
